@@ -53,12 +53,12 @@ Fixpoint json_value (fuel : nat) (v : value) : outcome bstr :=
       | VStr s => Ok (json_string s)
       | VList id l =>
           match l with
-          | [] => Ok (if id =? 0 then s_null else [91; 93])       (* a nil slice is null *)
+          | [] => Ok (if (id =? 0) && json_nil_null then s_null else [91; 93])   (* a nil slice was null before /repo 234aef6; which of the two holds is read from the source (Tables.json_nil_null) *)
           | _ => items <- json_items (json_value f) l ;; Ok ([91] ++ join [44] items ++ [93])
           end
       | VMap id m =>
           match m with
-          | [] => Ok (if id =? 0 then s_null else [123; 125])     (* a nil map is null *)
+          | [] => Ok (if (id =? 0) && json_nil_null then s_null else [123; 125])
           | _ => items <- json_fields (json_value f) (sorted_fields m) ;; Ok ([123] ++ join [44] items ++ [125])
           end
       end
